@@ -86,6 +86,10 @@ def memOf (kind : String) (size : Nat) : Option Mem :=
   else if kind == "a5" then some { len := size, byte := fun _ => 0xA5 }
   else if kind == "zero" then some { len := size, byte := fun _ => 0 }
   else if kind == "one" then some { len := size, byte := fun i => if i % 4 = 0 then 1 else 0 }
+  else if kind.length == 9 && kind.startsWith "w" then
+    -- word fill (round 8): the little-endian 32-bit word repeated, every aligned size / count field holds it
+    let v := parseHexNat (kind.toList.drop 1)
+    some { len := size, byte := fun i => (v / 256 ^ (i % 4)) % 256 }
   else some { len := size, byte := fun i => if i + 1 = size then 10 else 0 }
 
 /-- union of the non-empty ranges, merged, as "lo-hi,lo-hi" -/
